@@ -485,9 +485,20 @@ def case_line(cid, case, **kw):
     return " ".join(toks)
 
 
-def gen_cases(r, n, sizes=("tiny", "small", "small", "small", "large")):
+def corpus_cases():
+    """minimised rule sets of past failures (corpus/arena/*.json); they run first in every check that uses gen_cases"""
+    import glob, json, os
     out = []
-    for i in range(n):
+    for p in sorted(glob.glob(os.path.join(os.path.dirname(os.path.dirname(os.path.dirname(os.path.abspath(__file__)))), "corpus", "arena", "*.json"))):
+        d = json.load(open(p))
+        out.append({"exts": [tuple(e) for e in d.get("exts", [])], "nss": [tuple(x) for x in d["nss"]],
+                    "bufs": [bytes.fromhex(b) for b in d["bufs"]], "feats": sorted(d.get("feats", []))})
+    return out
+
+
+def gen_cases(r, n, sizes=("tiny", "small", "small", "small", "large"), corpus=True):
+    out = corpus_cases() if corpus and n >= 20 else []
+    for i in range(n - len(out)):
         g = Gen(r, sizes[i % len(sizes)])
         out.append(g.ruleset())
     return out
